@@ -103,6 +103,20 @@ fn exec_line(w: &mut Option<World>, line: &str, model: &mut Option<ModelProc>, o
     }
 }
 
+/// the model's own branch counters (`cov` driver line) into `model:<branch>` histogram keys
+fn merge_cov(hits: &mut BTreeMap<String, u64>, model: &mut Option<ModelProc>) {
+    if let Some(m) = model.as_mut() {
+        let ans = m.ask("cov");
+        if ans != "-" && !ans.starts_with('<') {
+            for e in ans.split(';') {
+                if let Some((k, n)) = e.rsplit_once('@') {
+                    *hits.entry(format!("model:{k}")).or_insert(0) += n.parse::<u64>().unwrap_or(0);
+                }
+            }
+        }
+    }
+}
+
 fn clip(s: &str) -> String {
     if s.len() > 1200 { format!("{}…[{} bytes]", &s[..1200], s.len()) } else { s.to_string() }
 }
@@ -312,7 +326,7 @@ fn main() {
     // `--only sched`: development switch, run nothing but the schedule exploration
     let only_sched = args.extra.get("only").is_some_and(|v| v == "sched");
     let n_cases = if only_sched { 0 } else { args.budget(40_000, 1_500_000) };
-    let limit_s = if args.focus.is_some() { 420 } else { args.budget(60, 1200) };
+    let limit_s = if args.focus.is_some() { 420 } else { args.budget(60, 300) };
     let deadline = std::time::Instant::now() + std::time::Duration::from_secs(limit_s);
     let threads = std::thread::available_parallelism().map(|n| n.get()).unwrap_or(4).min(16) as u64;
     let thorough = args.thorough() || args.focus.is_some();
@@ -362,6 +376,7 @@ fn main() {
                         }
                         i += threads;
                     }
+                    merge_cov(&mut a.hits, &mut model);
                     a
                 })
             })
@@ -415,7 +430,7 @@ fn main() {
     if args.replay.is_none() {
         let t0 = std::time::Instant::now();
         let thorough_x = args.thorough() || args.focus.is_some();
-        let deadline = t0 + std::time::Duration::from_secs(if args.focus.is_some() { 120 } else { args.budget(20, 900) });
+        let deadline = t0 + std::time::Duration::from_secs(if args.focus.is_some() { 120 } else { args.budget(20, 240) });
         let per_case = args.budget(6_000, 400_000);
         let mut total = 0u64;
         let mut anomalies = 0u64;
@@ -455,6 +470,14 @@ fn main() {
         report.measured.insert("same_pair_result_anomalies (returned value not explained by a sequential order while two threads work on the same (key,id); see notes/C10.md)".into(), json!(anomalies));
         report.measured.insert("schedule_exploration_seconds".into(), json!(t0.elapsed().as_secs_f64()));
     }
+    {
+        let mut h = BTreeMap::new();
+        merge_cov(&mut h, &mut model);
+        for (k, v) in h {
+            report.hit_n(&k, v);
+        }
+    }
+    report.notes.push("histogram keys `model:*` are the Lean model's own branch counters under the correspondence run (driver line `cov`)".into());
     report.notes.push("threads: interleavings at the verif::point hooks are enumerated on real threads and replayed by the Lean model (insert / remove / compact; array operations oracle only); the free-running stress phase is measured only".into());
     report.write(&args);
 }
